@@ -1,6 +1,6 @@
 // Runtime contract check of the LSP glue (attached to harper-ls/src/document_state.rs). BOUNDED stand-in
 // for the parts of C08 outside pos_conv (Url / HashMap / serde_json / LintGroup are outside both verifiers):
-// for 19 texts (astral and combining characters, tabs, LF and CRLF line ends, with and without a trailing
+// for 24 texts (astral and combining characters, tabs, LF and CRLF line ends, with and without a trailing
 // newline, lints on the first / a middle line) and every lint they produce:
 //   (1) the diagnostic range equals the reference LSP positions (line = LF count, column = UTF-16 units)
 //       of the lint's character span;
@@ -55,15 +55,24 @@ fn rac_lsp_glue() {
         "Fine.\nspeling is hard.\nx\n",
         "“中文” — this is an test, mispelled too.\nend\n",
         "😀 ok\r\nShe bought milk, eggs and bread 😀 today.\r\nend\r\n",
+        // a lint that ends on the very last character of a file without a trailing line break
+        "This is a tset",
+        "Fine 😀 text with a tset",
+        // Markdown (texts starting with "md:"): a lint that spans markup characters which belong to no token
+        "md:I saw the *the* cat.\nnext\n",
+        "md:> I saw the\n> the cat.\nend\n",
+        "md:An `x` test and teh **teh** end.\nnext\n",
     ];
     let cfg = CodeActionConfig { force_stable: false };
     let mut cases = 0u64;
     let mut nontrivial = 0u64;
     let mut seen_insert_after = false;
     for text in texts.iter() {
+        let (markdown, text) = match text.strip_prefix("md:") { Some(t) => (true, t), None => (false, *text) };
+        let text = &text;
         let src: Vec<char> = text.chars().collect();
         let mut st = DocumentState::default();
-        st.document = Document::new_plain_english_curated(text);
+        st.document = if markdown { Document::new_markdown_default_curated(text) } else { Document::new_plain_english_curated(text) };
         st.linter = LintGroup::new_curated(FstDictionary::curated(), Dialect::American);
         let mut lints = {
             let temp = st.linter.config.clone();
@@ -120,5 +129,5 @@ fn rac_lsp_glue() {
         }
     }
     if !seen_insert_after { println!("RAC-CEX lsp_glue {{\"why\": \"vacuity guard: no InsertAfter suggestion was exercised\"}}"); panic!("vacuous"); }
-    println!("RAC-OK lsp_glue cases={} nontrivial={} bound=19-texts,every-lint,every-cursor-position", cases, nontrivial);
+    println!("RAC-OK lsp_glue cases={} nontrivial={} bound=24-texts,every-lint,every-cursor-position", cases, nontrivial);
 }
